@@ -24,13 +24,14 @@ ID = 'C18'
 LEVEL = 'exploration'
 RULE = ('runs = (generated tree with 0..4 mutations from all classes of C01/C03 incl. odd '
         'ones | C09 grammar / mutation / hand-picked odd Manifest text planted as '
-        'top-level Manifest | generated ebuild repository) x command {verify, verify -k, '
+        'top-level Manifest | generated ebuild repository | unreferenced file named '
+        'Manifest.{gz,bz2,lzma,xz} with damaged compressed data) x command {verify, verify -k, '
         'verify SUBDIR, update, update SUBDIR for every sub-directory, create -p '
         '{default, ebuild, old-ebuild}}. Non-trivial = the command did not simply return '
         '0; distinct = (input hash, command).')
 ANCHORS = ['cli:main', 'cli:VerifyCommand.__call__', 'cli:UpdateCommand.__call__',
            'cli:CreateCommand.__call__']
-REQUIRED = ['cli:main', 'cmd:verify', 'cmd:verify-k', 'cmd:update', 'cmd:update-sub',
+REQUIRED = ['cli:main', 'strayman:body', 'strayman:truncated', 'cmd:verify', 'cmd:verify-k', 'cmd:update', 'cmd:update-sub',
             'cmd:create', 'outcome:rc1', 'outcome:rc0']
 ASSUMPTIONS = ['Manifest texts are valid UTF-8 (non-UTF-8 files are outside the '
                'statement)', 'an OSError is genuine if repeating the access on '
@@ -83,6 +84,8 @@ def units(tier, seed):
     for i in range(max(2, n // 400)):
         u.append({'k': 'repo', 'i': i, 'n': 3})
     u.append({'k': 'odd'})
+    for fmt in ('gz', 'bz2', 'lzma', 'xz'):
+        u.append({'k': 'strayman', 'fmt': fmt})
     return u
 
 
@@ -318,6 +321,13 @@ def run_repo(u, ctx):
                 'MANIFEST metadata/Manifest 0\n'])))
         if rng.random() < 0.3:
             extra.append(('profiles/arch/files/foo', 'x'))
+        fdirs = sorted(n['p'] for n in tree['nodes'] if n['t'] == 'd'
+                       and n['p'].endswith('/files') and n['p'].count('/') == 2)
+        if fdirs and rng.random() < 0.4:
+            # a (valid, so far unreferenced) Manifest inside a files/ directory
+            fd = rng.choice(fdirs)
+            extra.append((fd + '/Manifest', rng.choice(['', 'IGNORE nothing\n',
+                                                        'DIST x.tar 1\n'])))
         case = {'kind': 'repo', 'tree': tree, 'extra': extra,
                 'keep_sub_manifests': True}
         exec_repo(ctx, case)
@@ -325,10 +335,49 @@ def run_repo(u, ctx):
             ctx.sample({'extra': extra}, 'repo')
 
 
+def damaged_variants(fmt):
+    """Deterministic list of (how, bytes): a compressed Manifest damaged in several
+    ways (each decompressor fails differently: bad magic, truncated stream, damaged
+    body, damaged check sum / trailer)."""
+    good = mtext.compress(fmt, b'DATA inner 1\n' * 40)
+    n = len(good)
+    out = [('garbage', b'certainly not compressed data \x00\x01\x02'), ('empty', b'')]
+    for frac in (0.1, 0.5, 0.9):
+        k = max(1, int(n * frac))
+        out.append(('truncated@%d%%' % int(frac * 100), good[:k]))
+        k = min(max(10, int(n * frac)), n - 1)
+        out.append(('body@%d%%' % int(frac * 100),
+                    good[:k] + b'\xff' * min(10, n - k) + good[k + 10:]))
+    out.append(('tail', good[:-4] + bytes(b ^ 0x5a for b in good[-4:])))
+    out.append(('trailing-junk', good + b'junk after the stream'))
+    return out
+
+
+def exec_strayman(ctx, case):
+    def make(base):
+        plant(base, case.get('top', ''))
+        with open(os.path.join(base, case['where'], 'Manifest.' + case['fmt']), 'wb') as f:
+            f.write(bytes.fromhex(case['raw']))
+    battery(ctx, make, case, 'strayman')
+
+
+def run_strayman(u, ctx):
+    """A file that merely has a compressed-Manifest name (not referenced by any
+    Manifest) holding damaged compressed data, in a sub-directory."""
+    for how, raw in damaged_variants(u['fmt']):
+        for where in ('sub', 'sub/f'):
+            ctx.count('strayman:' + how.split('@')[0])
+            exec_strayman(ctx, {'kind': 'strayman', 'fmt': u['fmt'], 'how': how,
+                                'where': where, 'raw': raw.hex(),
+                                'keep_sub_manifests': True})
+
+
 def run_unit(u, ctx):
-    {'tree': run_tree, 'text': run_text, 'repo': run_repo, 'odd': run_odd}[u['k']](u, ctx)
+    {'tree': run_tree, 'text': run_text, 'repo': run_repo, 'odd': run_odd,
+     'strayman': run_strayman}[u['k']](u, ctx)
 
 
 def replay(case, ctx):
     case = {k: v for k, v in case.items() if k not in ('cmd', 'argv')}
-    {'tree': exec_tree, 'text': exec_text, 'repo': exec_repo}[case['kind']](ctx, case)
+    {'tree': exec_tree, 'text': exec_text, 'repo': exec_repo,
+     'strayman': exec_strayman}[case['kind']](ctx, case)
